@@ -12,6 +12,7 @@ import PasfmtModel.Proofs.Tree
 import PasfmtModel.Proofs.LexShape
 import PasfmtModel.Model.Cursor
 import PasfmtModel.Proofs.LexTotal
+import PasfmtModel.Proofs.LexBoundaries
 
 namespace Pasfmt.C04
 
@@ -35,6 +36,12 @@ theorem passes_linear (kinds : List RawKind) : (passes kinds).length ≤ kinds.l
     every token consumes at least one byte (an unterminated comment is never empty because the
     trailing blanks it drops never reach its first byte) and stays inside the text -/
 theorem lex_never_fails (simd : Bool) (s : Bytes) : ∃ toks, lexWith simd s = some toks := lexWith_total simd s
+
+/-- no scanner slice is off a character boundary (a `&str` slice elsewhere panics): on well-formed
+    UTF-8 every token's blanks and content are well-formed UTF-8 -/
+theorem lex_slices_on_char_boundaries (simd : Bool) (s : Bytes) (toks : List RawTok) (hv : ValidUtf8 s)
+    (h : lexWith simd s = some toks) : ∀ t ∈ toks, ValidUtf8 t.ws ∧ ValidUtf8 t.content :=
+  lexWith_char_boundaries simd s toks hv h
 
 /-- a pass never contains more tokens than the file -/
 theorem lex_token_count (s : Bytes) (toks : List RawTok) (h : lex s = some toks) :
